@@ -4,10 +4,13 @@
                                                <bridges> other than "-" is installed first: InstallBridgeListProfile;
                                                label I:<f>=<u>;<f>=<u> installs a list in the middle of a run;
                                                a client label with fingerprint "-" names no bridge)
+   broker irun <v0|v1> <bridges> <labels>  -> the same through Model/BrokerImpl.v istep (the two array heaps instead of the
+                                              relational pool; the choice written in a client label is ignored and
+                                              computed by heap.Pop), plus heapU=<len> heapR=<len>
    broker heap <ops>                       -> Model/BrokerHeap.v xstep on an empty SnowflakeHeap, one segment per op:
                                               <returned id|->/<slice: id:clients:index ...>/<left the heap: id:index ...> *)
 From Coq Require Import List NArith ZArith Bool Arith String.
-From Snow Require Import Lib.Wire Model.Broker Model.BrokerHeap.
+From Snow Require Import Lib.Wire Model.Broker Model.BrokerHeap Model.BrokerImpl.
 Import ListNotations.
 Open Scope N_scope.
 
@@ -146,6 +149,18 @@ Definition run (args : list bytes) : bytes :=
         | Some ver, Some inst, Some labels =>
             match run_idx ver (init builtin_bridges) (inst ++ labels) 0 with
             | inl s => obs_print s
+            | inr i => bs "!disabled " ++ dec_print (N.of_nat (i - List.length inst))
+            end
+        | _, _, _ => ERR_BADCASE
+        end
+      else if beq op (bs "irun") then
+        match (if beq v (bs "v0") then Some V0 else if beq v (bs "v1") then Some V1 else None),
+              (if beq br (bs "-") then Some [] else option_map (fun b => [L_Install b]) (list_parse bridge_parse br)),
+              list_parse label_parse ls with
+        | Some ver, Some inst, Some labels =>
+            match irun_idx ver (iinit builtin_bridges) (inst ++ labels) 0 with
+            | inl st => obs_print (i_s st) ++ bs " heapU=" ++ dec_print (N.of_nat (List.length (h_arr (i_hu st))))
+                                           ++ bs " heapR=" ++ dec_print (N.of_nat (List.length (h_arr (i_hr st))))
             | inr i => bs "!disabled " ++ dec_print (N.of_nat (i - List.length inst))
             end
         | _, _, _ => ERR_BADCASE
